@@ -457,7 +457,9 @@ class RoundGen:
             dims = []
             for n in shape:
                 r = rng.random()
-                if r < 0.4:
+                if r < 0.12:
+                    dims.append([None, None])          # [:]
+                elif r < 0.4:
                     dims.append([n, n])
                 elif r < 0.6:
                     dims.append([max(0, n - 1), n + 1])
@@ -511,6 +513,15 @@ class RoundGen:
         if cfg["constraints"] and not shape and (declare or st["value"] is not None
                                                  or rng.random() < 0.3):
             self.s_properties(path, indent + 2)
+        pend = getattr(self, "pending_mods", None)
+        if pend:
+            self.pending_mods = []
+            for m_ in pend:
+                if self.stopped:
+                    break
+                self.chain_valid = False
+                self.emit(m_)
+            return
         if not declare and rng.random() < cfg["p_constant"] and not self.stopped:
             self.emit({"k": "constant", "indent": indent + 2})
 
@@ -646,6 +657,25 @@ class RoundGen:
                     else:
                         vals, ou = opts, node["unit"]
                 self.emit({"k": "options", "indent": indent, "values": vals, "unit": ou})
+                if typ in ("int", "float") and node["unit"] is not None and not self.stopped \
+                        and rng.random() < 0.35:
+                    # a second clause: the *same numbers* in a coarser unit (documented: several
+                    # !options clauses, each with its own unit) - other options, not duplicates
+                    fam = self.family_of(node["unit"])
+                    pool = (DM.INT_SAFE.get(fam, []) if typ == "int" else DM.FAMILY.get(fam, [])) \
+                        if fam and fam != "temperature" else []
+                    fn = self.g.units.factor(node["unit"]) if pool else 0
+                    coarser = [u_ for u_ in pool if self.g.units.factor(u_) > fn * 1.5
+                               and u_ != (ou or node["unit"])]
+                    if coarser:
+                        cu2 = rng.choice(coarser)
+                        self.emit({"k": "options", "indent": indent, "values": list(vals),
+                                   "unit": cu2})
+                        if not self.stopped and rng.random() < 0.6 and node["condition"] is None:
+                            # ... and the node takes one of them, written as in that clause
+                            self.pending_mods = getattr(self, "pending_mods", [])
+                            self.pending_mods.append({"k": "mod", "indent": 0, "name": path,
+                                                      "value": rng.choice(list(vals)), "unit": cu2})
             else:
                 for o in opts:
                     ou = self.other_unit(node, typ) if rng.random() < 0.4 else node["unit"]
@@ -799,6 +829,19 @@ class RoundGen:
                      and isinstance(n_["value"], (int, float)) and not isinstance(n_["value"], bool)
                      and n_["value"] > 0 and not n_["unit"].startswith("[")
                      and n_["unit"] not in DM.TEMP]
+            arrs = [p_ for p_, n_ in self.g.nodes.items()
+                    if n_["type"] in ("int", "float") and n_["unit"] is not None
+                    and isinstance(n_["value"], list) and n_["value"]
+                    and all(isinstance(x, (int, float)) and not isinstance(x, bool) and x > 0
+                            for x in n_["value"])
+                    and not n_["unit"].startswith("[") and n_["unit"] not in DM.TEMP]
+            if arrs and rng.random() < 0.5:
+                # one element of an array as the size of the unit: '$unit step = {?steps}[2]'
+                rp = rng.choice(arrs)
+                i = rng.randrange(len(self.g.nodes[rp]["value"]))
+                self.emit({"k": "unit", "indent": 0, "name": name, "value": None, "unit": None,
+                           "ref": {"src": None, "query": rp}, "slice": [[i, i]]})
+                return
             if cands:
                 rp = rng.choice(cands)
                 own = rng.choice([None, None, "mm", "s", "g"])
@@ -1553,6 +1596,28 @@ class DipStoreMachine(Machine):
             return
         if fault in ("other_type", "other_dimension", "constant", "bad_value"):
             gen.s_modification(fault)
+        elif fault == "declared_unset" and rng.random() < 0.3:
+            # a declared node is copied by an import before it has a value; the original gets
+            # its value afterwards, the copy never does
+            gen.s_definition(declare=True)
+            if gen.stopped or not gen.stmts or not gen.stmts[-1].get("declare"):
+                return
+            path = gen.g.last_new
+            node = gen.g.nodes.get(path)
+            if node is None or node["dims"] is not None:
+                return
+            cname = "imp" + str(rng.randint(1, 9))
+            if any(p_ == cname or p_.startswith(cname + ".") for p_ in gen.g.nodes):
+                return
+            gen.chain_valid = False
+            gen.fault_label = "declared_copy_unset"
+            gen.emit({"k": "import", "indent": 0, "name": cname, "ref": {"src": None, "query": path}})
+            if gen.stopped:
+                return
+            v = gen.good_value(node)
+            if v is None:
+                v = gen.scalar_value(node["type"])
+            gen.emit({"k": "mod", "indent": 0, "name": path, "value": v, "unit": None})
         elif fault == "declared_unset":
             gen.fault_label = "declared_unset"
             gen.s_definition(declare=True)
